@@ -14,10 +14,10 @@ T = {
          "Zeroing is decided for all data values per shape, in place and out of place, and on check_tag alone up to length 40 (thorough 1000), with the call contract showing it receives the whole region."),
  "C05": ("translation_validation", "6.C05", "z3 cut-point equivalence of each assembly program (own ISA symbolic executor) and CBMC lemmas for the C backend against the specification NLFSR; generator byte-identity",
          "Each of the 27 backend programs (24 assembly files, Xtensa in both ABIs, 3 C files) is proved equal to the word-level chain for all states and keys per round count, with frame and ABI facts; the chain is tied to the bit-serial NLFSR by Lemma A."),
- "C06": (BMC, "6.C06", "CBMC pointer/bounds/overflow checks over exact-size heap objects for every public function, all data symbolic",
+ "C06": (BMC, "6.C06", "CBMC pointer/bounds/overflow checks over exact-size heap objects for every public function, all data symbolic; E3: bounds and IR alignment of every access on clang -O2 IR with caller buffers of alignment 1",
          "Any read or write outside a caller-declared range, any modified input, any undefined shift / signed overflow is a failed solver query for every data value within the shape window."),
- "C07": (BMC, "6.C07", "self-composition in CBMC over goto-instrument --branch traces: two runs, equal public shape, independent symbolic secrets",
-         "Control-flow independence from secrets is decided on the C sources for every listed operation and shape; address independence is NOT decided (stated in evidence)."),
+ "C07": (BMC, "6.C07 + 12.2(1)", "symbolic execution of clang's LLVM IR (own executor E3 + z3): secrets symbolic, every branch condition / address / length / shift amount must be proved secret-independent; CBMC self-composition over goto-instrument --branch traces as second opinion",
+         "Control flow AND memory addresses are decided independent of all secret bytes per public shape on clang -O2 IR (thorough: -O0/-O2/-O3/vectorised); a violation comes with two witness secrets replayed on the IR. Machine code after instruction selection and gcc are outside."),
  "C08": (BMC, "6.C08", "CBMC + z3: SIV round trip, accept-iff for every (body, tag) pair, call contract, short inputs",
          "As C01 + C03 + C04 for the three SIV variants."),
  "C09": (BMC, "6.C09", "CBMC + z3: SIV output == two-pass model; keystream is a function of (key, nonce[0..3], tag) and provably not independent of the tag",
@@ -42,7 +42,7 @@ T = {
          "All 4^8 (thorough 4^16) fault sequences over {success, EINTR, EAGAIN, permanent} are decided in one query per build variant."),
  "C19": (BMC, "6.C19", "structural facts from goto-cc symbol tables + CBMC history-independence queries with --nondet-static",
          "No writable static, no heap, closed import set (read from the compiler IR on every run); a call's result is shown independent of any earlier unrelated call for all data; commutation on disjoint objects follows by the stated meta-step."),
- "C20": (BMC, "6.C20", "CBMC + SAT: free functions on arbitrary state bytes, clean(off, n) exact range, three configurations of the primitive",
+ "C20": (BMC, "6.C20", "CBMC + SAT: free functions on arbitrary state bytes, clean(off, n) exact range, three configurations of the primitive; E3: the clearing survives clang -O2/-O3 (wipe calls still executed, clean zeroes its range)",
          "Every byte zero after free for all prior contents; clean zeroes exactly [off, off+n) for n 0..70, offsets 0..7."),
 }
 checks = []
@@ -54,7 +54,7 @@ for pid in sorted(T):
         "thorough_cmd": "./check %s --tier thorough" % pid,
         "evidence_file": "evidence/%s.json" % pid,
         "replay_cmd_template": "./check %s --replay {path}" % pid,
-        "engine": "E2+E1" if pid == "C05" else "E1",
+        "engine": {"C05": "E2+E1", "C07": "E3+E1", "C06": "E1+E3", "C20": "E1+E3"}.get(pid, "E1"),
         "level_claimed": {"category": level, "text": text + " Bounded: shapes outside the stated windows are not covered.", "design_ref": ref},
         "level_note": "Trusted: cbmc 6.11.0, z3 4.8.12 / kissat / MiniSat, the harness stubs and specification models listed in the evidence (models validated against the repo's KAT files), "
                       "Cut 1 (permutation as uninterpreted function, discharged by C05) and Cut 2 (hash as arbitrary function, discharged by C10/C11/C20) where used. gcc code generation is outside.",
@@ -73,6 +73,7 @@ m = {
  "engines": [
   {"name": "E1", "path": "lib/driver.py + harness/ + models/", "serves_properties": sorted(T), "kind_free_text": "CBMC harnesses over the real C translation units, solver back ends z3 / MiniSat / kissat, native replay of counterexamples"},
   {"name": "E2", "path": "e2/asmcheck.py, e2/gencheck.py", "serves_properties": ["C05"], "kind_free_text": "own symbolic executor for AVR / ARM / RISC-V / Xtensa assembly with z3 cut-point equivalence"},
+  {"name": "E3", "path": "e3/ctcheck.py, e3/interp.py, e3/llir.py", "serves_properties": ["C07", "C06", "C20"], "kind_free_text": "own concolic executor for clang-14 LLVM IR with z3: secret-independence of control flow and addresses, access alignment, survival of wiping calls"},
  ],
  "checks": checks,
  "notes": "Repairs of genuine defects found by the checks are 'fix:' commits in /repo, recorded in known-findings.txt (C16, C17). Exit codes: 0 held, 1 VIOLATION (replayed), 2 INCONCLUSIVE (timeout / unreproduced / vacuous).",
